@@ -271,7 +271,11 @@ func TransCtrlSeq(str string, ansi bool) (dst string, change bool) {
 	dst = fmtPat.ReplaceAllStringFunc(
 		str,
 		func(str string) string {
-			f, ok := fmtCode[str[2]]
+			code := str[2] | 0x20 // the pattern is case-insensitive
+			if code == 'k' {
+				return "" // obfuscated: no ANSI equivalent, just remove the § code
+			}
+			f, ok := fmtCode[code]
 			if ok {
 				if ansi {
 					change = true
